@@ -180,6 +180,26 @@ func EnumLoops(deep bool) []*Program {
 			out = append(out, p)
 		}
 	}
+	// match compares strictly: arms of another type never match a subject that is loosely equal to them
+	subjects := []struct {
+		name string
+		e    N
+	}{{"int0", Int(0)}, {"int1", Int(1)}, {"str1", Str("1")}, {"str-empty", Str("")}, {"true", Bool(true)}, {"false", Bool(false)}, {"null", Null()}}
+	for _, sj := range subjects {
+		for order := 0; order < 2; order++ {
+			arms := []MatchArm{{[]N{Null()}, Str("null-arm")}, {[]N{Bool(false)}, Str("false-arm")}, {[]N{Str("1")}, Str("str1-arm")},
+				{[]N{Int(1), Str("0")}, Str("int1-or-str0-arm")}, {[]N{Bool(true)}, Str("true-arm")}, {[]N{Int(0), Str("")}, Str("int0-or-empty-arm")}}
+			if order == 1 {
+				for i, j := 0, len(arms)-1; i < j; i, j = i+1, j-1 {
+					arms[i], arms[j] = arms[j], arms[i]
+				}
+			}
+			p := &Program{Funcs: map[string]Func{}, Classes: map[string]Class{}}
+			p.Main = []N{Mark(1), Assign("x", sj.e), Match("m", Var("x"), arms, Str("default-arm")), Echo(Var("m")), Mark(2)}
+			p.Tags = []string{"fam=enum", fmt.Sprintf("shape=match-mixed/subject=%s/order=%d", sj.name, order)}
+			out = append(out, p)
+		}
+	}
 	return out
 }
 
